@@ -170,7 +170,12 @@ def main():
     derived_over("Scripted", lambda fn: explore(fn, cap=64), batch, stats, "E/base")
 
     # (E) deciders' bounded integer draw over all raw draws (boundary subsets on wide ranges)
-    for bnd in INT_BOUNDS + [None]:
+    # odd and even widths just above the wide-branch threshold, powers of two, and shifted ranges:
+    # the wide branch computes from width // 2, so parity and alignment matter
+    wide = [(0, w) for w in list(range(1001, 1061)) + [1999, 2000, 2047, 2048, 4095, 8191, 8192, 65535, 65536,
+                                                       99999, 100000, 2 ** 20 - 1, 2 ** 31 - 1, 2 ** 31, 2 ** 32 - 1]]
+    wide += [(-512, 511), (-512, 512), (-1000, 1), (-1, 1000), (7, 1030), (-2047, 2048), (-(2 ** 31), 2 ** 31 - 1)]
+    for bnd in INT_BOUNDS + wide + [None]:
         lo, hi = bnd if bnd is not None else (None, None)
         for dname, mk in (("MaxDepthDecider", lambda s: MaxDepthDecider(s, GRAMMAR, 3)),
                           ("ProgressivelyTerminalDecider", lambda s: ProgressivelyTerminalDecider(s, GRAMMAR))):
